@@ -571,6 +571,8 @@ def gen_session(rng, n_calls):
         make(s)
     for _ in range(rng.randint(1, 2)):
         make({'kind': 'regexp', 'tree': genrx.tree(rng, rng.randint(0, 6), list(sigma))})
+    # an expression with constants under stars and in sums / products: simplification has work to do at every level
+    make({'kind': 'regexp', 'tree': ['star', genrx.tree(rng, rng.randint(1, 4), list(sigma), leaf_weights=(30, 30, 40))]})
     for _ in range(rng.randint(1, 2)):
         make({'kind': 'words', 'words': sorted({_words(rng, sigma, 5) for _ in range(rng.randint(0, 6))})})
     if rng.random() < 0.6:
@@ -813,11 +815,14 @@ def run_case(case, env):
                 _restore(knobs_before)
             if idx in solo and d not in ('timeout',) and not d.startswith('exc:RecursionError'):
                 # shortest possible history: the very same call again, same objects, same process
-                d2, st2, val2, ticks2 = _run_call(env, o, args, step['params'], ctx)
-                ticks += ticks2
-                out['probes']['repeated_calls'] = out['probes'].get('repeated_calls', 0) + 1
-                if d2 != d and d2 != 'timeout':
-                    out['viol'].append(viol('repeated-call-differs', site, {'step': idx, 'first': d, 'second': d2}))
+                reps = 9 if idx % 5 == 0 and ticks < 200_000 else 1      # now and then a longer history of the same call
+                for rep in range(reps):
+                    d2, st2, val2, ticks2 = _run_call(env, o, args, step['params'], ctx)
+                    ticks += ticks2
+                    out['probes']['repeated_calls'] = out['probes'].get('repeated_calls', 0) + 1
+                    if d2 != d and d2 != 'timeout':
+                        out['viol'].append(viol('repeated-call-differs', site, {'step': idx, 'first': d, 'repetition': rep + 2, 'then': d2}))
+                        break
             if st == 'ok' and 'id' in step and val is not None and _size_ok(val):
                 pool[step['id']] = val
             if any(a in used_before for a in ops) or any('spec' not in case['steps'][_index_of(case, a)] for a in ops):
